@@ -254,6 +254,9 @@ class Executor(object):
             self.KIND_IDS[key] = len(self.KIND_IDS) + 1
         return IntC(self.KIND_IDS[key])
 
+    def cls_arr(self):
+        return Var('H0!$cls', ArrS(INT, INT))       # immutable: dynamic class of an object reference
+
     def kind_arr(self):
         return Var('H0!$kind', ArrS(INT, INT))      # immutable: the run-time type of a reference never changes
 
@@ -400,6 +403,19 @@ class Executor(object):
         for name, pt in params:
             if pt is None:
                 raise ContractMismatch('%s: parameter %s has no type' % (contract.target, name))
+            if pt.kind == 'fnref':
+                q = pt.args[0]
+                if q in self.program.functions and self.program.functions[q][2] is not None:
+                    st.locals[name] = SV(PT('func'), py=('closure', self.program.functions[q][1], q))
+                else:
+                    st.locals[name] = SV(PT('func'), py=('func', q))
+                continue
+            if pt.kind == 'clsref':
+                st.locals[name] = SV(PT('class'), py=pt.args[0])
+                continue
+            if pt.kind == 'opaque':
+                st.locals[name] = SV(PT('opaque'), py=name)
+                continue
             v = SV(pt, Var('p!' + name, sort_of(pt)))
             st.locals[name] = v
             self.assume_wf(st, v)
@@ -879,7 +895,7 @@ class Executor(object):
             if pt is None:
                 st.locals.pop(n, None)
                 continue
-            if pt.kind in ('none', 'func', 'class', 'module', 'pytuple'):
+            if pt.kind in ('none', 'func', 'class', 'module', 'pytuple', 'opaque', 'fnref', 'clsref', 'excv'):
                 if pt.kind == 'none':
                     raise ContractMismatch('loop %d: local %s is None before the loop and assigned inside; declare loop_types' % (ordn, n))
                 continue
@@ -1268,6 +1284,8 @@ class Executor(object):
         b = self.builtin_name(n.id)
         if b is not None:
             return b
+        if n.id.startswith('__H_'):
+            return SV(PT('func'), py=('oracle', n.id))
         raise OutOfSubset('unknown name %s at line %d' % (n.id, getattr(n, 'lineno', 0)))
 
     def builtin_name(self, name):
